@@ -84,6 +84,62 @@ func ruleC13_2(c *Ctx) {
 		nrw++
 		c.check(c.condAt(f.Params[2], true, call.Block()), R, fn, "content rewrite "+n+" only under lineNormalization", call.Pos(), "control-dependent on the parameter being true", "file content is rewritten ("+n+") although line normalisation was not requested")
 	}
+	// the normaliser is exactly ReplaceAll(CRLF -> LF) followed by ReplaceAll(CR -> LF); anything else that transforms
+	// the bytes under lineNormalization is an unknown normaliser
+	// (looked for in RecordArtifact itself or in the one in_toto helper that receives the content under lineNormalization)
+	nf, input := f, contents
+	other := ""
+	if len(callsIn(f, "bytes.ReplaceAll")) == 0 {
+		for _, call := range allCalls(f) {
+			if c.condAt(f.Params[2], true, call.Block()) && len(call.Common().Args) > 0 && derives(call.Common().Args[0], func(v ssa.Value) bool { return v == contents }, false) {
+				other = calleeName(call)
+				if g := call.Common().StaticCallee(); g != nil && g.Blocks != nil && g.Pkg == f.Pkg && len(g.Params) == 1 {
+					nf, input = g, ssa.Value(g.Params[0])
+				}
+			}
+		}
+	}
+	var repl []string
+	cs := callsIn(nf, "bytes.ReplaceAll")
+	for _, call := range cs {
+		a := call.Common().Args
+		repl = append(repl, fmt.Sprintf("%q->%q", derivesConstBytes(a[1]), derivesConstBytes(a[2])))
+	}
+	okNorm := len(repl) == 2 && repl[0] == `"\r\n"->"\n"` && repl[1] == `"\r"->"\n"`
+	if okNorm {
+		// the first replacement is applied to the input, the second to the result of the first
+		pc, _ := producer(cs[1].Common().Args[0], cs[1])
+		okNorm = pc == cs[0] && resolve(cs[0].Common().Args[0], cs[0]) == input
+		if nf != f {
+			// the helper returns the result of the second replacement on every path, and does nothing else to the bytes
+			for _, r := range returnsOf(nf) {
+				if rp, _ := producer(r.Results[0], r); rp != cs[1] {
+					okNorm = false
+				}
+			}
+			for _, call := range allCalls(nf) {
+				if n := calleeName(call); n != "bytes.ReplaceAll" {
+					okNorm = false
+				}
+			}
+			for _, b := range nf.Blocks {
+				for _, in := range b.Instrs {
+					if _, isStore := in.(*ssa.Store); isStore {
+						okNorm = false
+					}
+				}
+			}
+		}
+	}
+	if len(cs) == 0 {
+		if other != "" {
+			c.undecided(R, fn, "line normaliser "+other, f.Pos(), "under lineNormalization the content is transformed by "+other+", not by the recognised bytes.ReplaceAll(CRLF->LF), bytes.ReplaceAll(CR->LF) pair: its result on all inputs (CR at the very end, lone CR, CRLF) is not decided")
+		} else {
+			c.bad(R, fn, "line normalisation", f.Pos(), "nothing normalises line endings when lineNormalization is requested")
+		}
+	} else {
+		c.check(okNorm, R, fname(nf), "line normalisation = CRLF->LF, then CR->LF", nf.Pos(), strings.Join(repl, ", "), "normalisation replacements are "+strings.Join(repl, ", ")+" (expected \"\\r\\n\"->\"\\n\" then \"\\r\"->\"\\n\", the first applied to the file content, the second to the result of the first, nothing else)")
+	}
 	// hashing
 	hh := firstCall(f, "in_toto.hashToHex")
 	if hh == nil {
@@ -573,4 +629,17 @@ func ruleC13_5(c *Ctx) {
 		}
 	}
 	c.check(okDiff, R, fn, "result 2 = names in both whose hash objects differ", f.Pos(), "append under !DeepEqual(link.Products[n], artifacts[n]) for n in the intersection", "the third result is not the set of common names with differing hashes")
+}
+
+// derivesConstBytes returns the string constant a []byte(...) conversion argument was made from ("" if unknown).
+func derivesConstBytes(v ssa.Value) string {
+	out := ""
+	derives(v, func(x ssa.Value) bool {
+		if s, ok := constString(x); ok {
+			out = s
+			return true
+		}
+		return false
+	}, false)
+	return out
 }
